@@ -78,6 +78,9 @@ def run(ctx):
                 os.remove(tr)
             except OSError:
                 pass
+    # stage X10 (notes/X10-notes.md): gtx/pca - covariance matrices, the symmetric eigen-solver, sortEigenvalues - specified in GlmX10.tla
+    from props import x10
+    x10.run(ctx)
     ctx.rule("every matrix visited by the TLC run of MC_C10 (unimodular, n = 2..4) through determinant, determinant(transpose), inverse, "
              "inverseTranspose, adjugate, m/m, m/=m, m/v, v/m, m*m + determinant, affineInverse of the affine embedding and of the matrix itself, "
              "float and double (mediump / lowp on every 4th): bit-exact against the integer layer; generated small-integer, triangular, "
